@@ -849,7 +849,8 @@ export class RegexRuntype extends BaseRuntype {
 
   constructor(metadata: RuntypeMetadata | undefined, regex: RegExp, description: string) {
     super(metadata);
-    this.regex = regex;
+    // a template literal type describes the whole string, and ${string} spans line breaks
+    this.regex = new RegExp(`^(?:${regex.source})$`, "s");
     this.description = description;
   }
 
